@@ -939,7 +939,9 @@ func (s *AbsfsNFS) Export(mountPath string, port int) error {
 	if err := server.Listen(); err != nil {
 		return err
 	}
+	s.exportMu.Lock()
 	s.exportServer = server
+	s.exportMu.Unlock()
 	return nil
 }
 
@@ -1012,10 +1014,7 @@ func (s *AbsfsNFS) Readlink(node *NFSNode) (string, error) {
 // Unexport stops serving the NFS export
 func (s *AbsfsNFS) Unexport() error {
 	// Stop the server if Export() created one
-	if s.exportServer != nil {
-		s.exportServer.Stop()
-		s.exportServer = nil
-	}
+	s.stopExportServer()
 	// Cleanup all open file handles
 	s.fileMap.ReleaseAll()
 	// Clear caches
